@@ -1,4 +1,99 @@
+(* C07: Honest participants follow protocol discipline in everything they emit.
+   Model: Gpbft/Instance.v (Layer N), tied to gpbft.Participant by the event-trace correspondence (harness c07.go). *)
 From Coq Require Import ZArith List Bool.
-From F3 Require Import GoInt QuorumGen Instance.
-Theorem placeholder_C07 : True. Proof. exact I. Qed.
-Print Assumptions placeholder_C07.
+From F3 Require Import GoInt QuorumGen Instance InstanceRun InstanceOrder InstanceVotes.
+Import ListNotations.
+Open Scope Z_scope.
+
+(* at most one message per (round, step), over every sequence of deliveries and timers *)
+Theorem C07_one_message_per_slot : forall c input now evs,
+  Forall wfe evs -> NoDup (slots (fst (run_hist c (new_instance input now) evs))).
+Proof. exact one_message_per_slot. Qed.
+Print Assumptions C07_one_message_per_slot.
+
+(* (round, step) progress never moves backwards, in every reachable state *)
+Theorem C07_progress_monotone : forall c i e, Inv i -> wfe e -> progress_le i (step c i e).
+Proof. exact progress_monotone. Qed.
+Print Assumptions C07_progress_monotone.
+Theorem C07_reachable_Inv : forall c input now evs, Forall wfe evs -> Inv (snd (run_hist c (new_instance input now) evs)).
+Proof. exact reachable_Inv. Qed.
+Print Assumptions C07_reachable_Inv.
+
+(* the candidate ("EC compatible") set only grows; the input is never replaced *)
+Theorem C07_candidates_monotone : forall c i e, Inv i -> wfe e -> Fc i (step c i e).
+Proof. exact candidates_monotone. Qed.
+Print Assumptions C07_candidates_monotone.
+
+(* round-0 PREPARE value = longest prefix of the input with a strong QUALITY quorum, else the base *)
+Theorem C07_longest_prefix : forall q v,
+  let p := q_longest_prefix q v in
+  is_prefix p v /\
+  ((2 <= length p)%nat -> q_has_sq q p = true) /\
+  (forall p', is_prefix p' v -> (length p < length p')%nat -> (2 <= length p')%nat -> q_has_sq q p' = false) /\
+  (v <> [] -> (1 <= length p)%nat).
+Proof. exact q_longest_prefix_spec. Qed.
+Print Assumptions C07_longest_prefix.
+Theorem C07_try_quality : forall c i,
+  let p := q_longest_prefix (i_quality i) (i_input i) in
+  let i' := try_quality c i in
+  if q_has_sq (i_quality i) (i_proposal i) || phase_timeout_elapsed i then
+    i_out i' = OBroadcast (i_round i) PREPARE p None false :: OAlarm (i_now i + nthZ (c_timeouts c) (i_round i)) :: i_out i /\
+    i_proposal i' = p /\ i_value i' = p /\ i_phase i' = PREPARE /\ i_round i' = i_round i /\
+    (forall p', In p' (all_prefixes p) -> is_candidate i' p' = true)
+  else i' = i.
+Proof. exact try_quality_spec. Qed.
+Print Assumptions C07_try_quality.
+Theorem C07_skip_from_quality : forall c i round v j,
+  i_phase i = QUALITY -> j_phase j = COMMIT -> In (firstn 1 (i_input i)) (i_cands i) ->
+  let p := q_longest_prefix (i_quality i) (i_input i) in
+  let i' := skip_to_round c i round v j in
+  (i_proposal i' = p /\ is_candidate i' p = true) \/ i_err i' <> None.
+Proof. exact skip_from_quality_spec. Qed.
+Print Assumptions C07_skip_from_quality.
+
+(* later rounds: the best-ticket CONVERGE value is adopted whenever it is a candidate *)
+Theorem C07_converge_adopts_best : forall c i w,
+  phase_timeout_elapsed i = true ->
+  c_find_best (r_conv (get_round i (i_round i))) (fun _ => true) = Some w ->
+  is_candidate i (cv_chain w) = true ->
+  let i' := try_converge c i in
+  i_proposal i' = cv_chain w /\ i_value i' = cv_chain w /\ i_phase i' = PREPARE /\
+  i_out i' = OBroadcast (i_round i) PREPARE (cv_chain w) (Some (cv_just w)) false :: OAlarm (i_now i + nthZ (c_timeouts c) (i_round i)) :: i_out i.
+Proof. exact try_converge_adopts_best. Qed.
+Print Assumptions C07_converge_adopts_best.
+
+(* COMMIT bottom only without a strong PREPARE quorum (or proof of one), and only once it is impossible or timed out *)
+Theorem C07_commit_bottom : forall c i,
+  i_phase i = PREPARE -> i_proposal i <> [] ->
+  let i' := try_prepare c i in
+  let prep := r_prep (get_round i (i_round i)) in
+  i_phase i' = COMMIT -> i_value i' = [] ->
+  q_has_sq prep (i_proposal i) = false /\
+  (q_could_reach c prep (i_proposal i) false = false \/ (phase_timeout_elapsed i = true /\ q_from_strong c prep = true)).
+Proof. exact try_prepare_commit_bottom. Qed.
+Print Assumptions C07_commit_bottom.
+Theorem C07_commit_justified : forall c i v0 v,
+  i_value i = v0 :: v ->
+  let i' := begin_commit c i in
+  (exists j, hd_error (i_out i') = Some (OBroadcast (i_round i) COMMIT (v0 :: v) (Some j) false) /\ j_phase j = PREPARE) \/
+  (i_out i' = OAlarm (i_now i + nthZ (c_timeouts c) (i_round i)) :: i_out i /\ i_err i' <> None).
+Proof. exact begin_commit_justified. Qed.
+Print Assumptions C07_commit_justified.
+
+(* non-vacuity: a concrete run (3 members, subject 0 with input [1;2;3]) passes QUALITY, PREPARE, COMMIT and decides *)
+Definition ex_cfg := mkCfg [10; 30; 30] 70 4 2 2000 [2000; 3000; 4500] [700; 900; 1100].
+Definition ex_events : list event :=
+  [ EvStart 0;
+    EvDeliver 10 (mkM 1 0 QUALITY [1; 2; 3] 0 None) None; EvDeliver 11 (mkM 2 0 QUALITY [1; 2] 0 None) None;
+    EvAlarm 2000 None;
+    EvDeliver 2010 (mkM 1 0 PREPARE [1; 2] 0 None) None; EvDeliver 2011 (mkM 2 0 PREPARE [1; 2] 0 None) None;
+    EvDeliver 2020 (mkM 1 0 COMMIT [1; 2] 0 (Some (mkJ 0 PREPARE [1; 2] [1; 2]))) None;
+    EvDeliver 2021 (mkM 2 0 COMMIT [1; 2] 0 (Some (mkJ 0 PREPARE [1; 2] [1; 2]))) None;
+    EvDeliver 2030 (mkM 1 0 DECIDE [1; 2] 0 (Some (mkJ 0 COMMIT [1; 2] [1; 2]))) None;
+    EvDeliver 2031 (mkM 2 0 DECIDE [1; 2] 0 (Some (mkJ 0 COMMIT [1; 2] [1; 2]))) None ].
+Example C07_nonvacuous :
+  Forall wfe ex_events /\
+  slots (fst (run_hist ex_cfg (new_instance [1; 2; 3] 0) ex_events)) = [(0, 1); (0, 3); (0, 4); (0, 5)] /\
+  i_phase (snd (run_hist ex_cfg (new_instance [1; 2; 3] 0) ex_events)) = TERMINATED /\
+  i_err (snd (run_hist ex_cfg (new_instance [1; 2; 3] 0) ex_events)) = None.
+Proof. split; [repeat constructor; cbn; congruence|vm_compute; repeat split]. Qed.
